@@ -31,6 +31,10 @@ FRAGMENTS = [
     'Index: foo\n', 'diff --git a b\n', '# comment\n', '#...diff:\n# HG\n',
     '#.preamble: length=3\n# H\n', 'length', '=', ', ', '\x00', '﻿',
     ' ', 'é', '中', '#.meta: length=2, x\n', '"k": [1, 2]',
+    '#.preamble: indent=4294967296, length=3\n',
+    '#..preamble: indent=99999999999999999999, length=6\n    x\n',
+    '#.preamble: indent=-1, length=2\nx\n', '#...diff: length=-5\n',
+    '#.change: encoding=utf-8\n', '#..file: encoding=utf-16\n',
 ]
 
 
@@ -135,7 +139,9 @@ def benign_program(program):
 
     for op, kw in program['calls']:
         kw = dict(kw)
-        kw.pop('encoding', None)
+
+        if 'encoding' in kw:
+            kw['encoding'] = 'utf-8'      # still UTF-8 everywhere
 
         if op == 'preamble':
             kw['text'] = clean(kw['text']).replace('\x00', '')
